@@ -5,7 +5,7 @@ import logging
 import os
 from dataclasses import dataclass, field
 
-from . import xltypes, reader, parser, tokenizer
+from . import xltypes, reader, parser, tokenizer, utils
 
 
 @dataclass
@@ -235,6 +235,9 @@ class ModelCompiler:
         for name in self.defined_names:
             cell_address = self.defined_names[name]
             cell_address = cell_address.replace('$', '')
+            if cell_address.count('!') == 1:
+                sheet_str, coord = cell_address.rsplit('!', 1)
+                cell_address = f'{utils.resolve_sheet(sheet_str)}!{coord}'
 
             # a cell has an address like; Sheet1!A1
             if ':' not in cell_address:
